@@ -154,7 +154,45 @@ Proof. exact (get_by_id_none F). Qed.
 Theorem C11_get_by_id_counter : forall fixed is_doc own d ids wc,
   (wc <= 10)%nat -> (lookups F fixed is_doc own d wc ids <= 10)%nat.
 Proof. exact (lookups_bounded F). Qed.
+(* ---- histories on one document: ANY sequence of edits (arbitrary functions on the document: remove, rename,
+   replace, append ...) and earlier look ups.  Induction over the operation list. *)
+(* the answer after the history is the model's answer on the document as it is now (counter irrelevant):
+   nothing an earlier look up found or missed is remembered, and look ups never edit the document *)
+Theorem C11_get_by_id_history : forall is_doc own ops d wc i,
+  let st := doc_run F true is_doc own (d, wc) ops in
+  fst st = mutate F (mutations F ops) d /\
+  g_res F (get_by_id F true is_doc own (fst st) (snd st) i)
+  = g_res F (get_by_id F true is_doc own (mutate F (mutations F ops) d) 0 i).
+Proof.
+  intros is_doc own ops d wc i. split; [exact (doc_run_doc F true is_doc own ops d wc)|exact (get_by_id_history F is_doc own ops d wc i)].
+Qed.
+
+(* hence the specification holds after every step, about the CURRENT document: a result carries the id and is in
+   it now; an id present now is found; None iff no component carries it now *)
+Theorem C11_get_by_id_history_spec : forall is_doc own ops d wc i,
+  let st := doc_run F true is_doc own (d, wc) ops in
+  let now := mutate F (mutations F ops) d in
+  let r := g_res F (get_by_id F true is_doc own (fst st) (snd st) i) in
+  (forall x, r = GFound F x -> id_matches F i x = true /\ searched now own x) /\
+  (i <> "" -> all_iterable F (o_fields F now) own ->
+   (exists x, searched now own x /\ id_matches F i x = true) -> exists y, r = GFound F y) /\
+  (all_iterable F (o_fields F now) own -> (forall x, searched now own x -> id_matches F i x = false) -> r = GNone F).
+Proof. exact (get_by_id_history_spec F). Qed.
+
+(* the code before the repair: the same, the warning counter being the only state carried from call to call *)
+Theorem C11_get_by_id_history_orig : forall fixed is_doc own ops d wc i,
+  let st := doc_run F fixed is_doc own (d, wc) ops in
+  get_by_id F fixed is_doc own (fst st) (snd st) i
+  = get_by_id F fixed is_doc own (mutate F (mutations F ops) d) (snd st) i /\
+  ((wc <= 10)%nat -> (snd st <= 10)%nat).
+Proof.
+  intros fixed is_doc own ops d wc i. split; [exact (get_by_id_history_orig F fixed is_doc own ops d wc i)|].
+  exact (doc_run_counter F fixed is_doc own ops d wc).
+Qed.
 End GetById.
+Print Assumptions C11_get_by_id_history.
+Print Assumptions C11_get_by_id_history_spec.
+Print Assumptions C11_get_by_id_history_orig.
 Print Assumptions C11_get_by_id_sound.
 Print Assumptions C11_get_by_id_complete.
 Print Assumptions C11_get_by_id_none.
@@ -185,3 +223,15 @@ Example C11_example_found :
       (Obj "NeuroMLDocument" [("cells", VObjs [Obj "Cell" [("id", VStr "a")]; Obj "Cell" [("id", VStr "b")]])]) 0 "b")
   = GFound unit (Obj "Cell" [("id", VStr "b")]).
 Proof. reflexivity. Qed.
+
+(* a history: found, removed, looked up again -> None; renamed -> the old id is gone, the new one is found *)
+Definition doc_ab := Obj (F := unit) "NeuroMLDocument"
+                         [("cells", VObjs [Obj "Cell" [("id", VStr "a")]; Obj "Cell" [("id", VStr "b")]])].
+Example C11_example_history :
+  let run ops := doc_run unit true true [cell_spec] (doc_ab, 0%nat) ops in
+  let ask ops i := g_res unit (get_by_id unit true true [cell_spec] (fst (run ops)) (snd (run ops)) i) in
+  ask [DLookup unit "b"; DMutate unit (m_remove unit "cells" 1)] "b" = GNone unit /\
+  ask [DLookup unit "a"; DMutate unit (m_rename unit "cells" 0 (VStr "c"))] "a" = GNone unit /\
+  ask [DLookup unit "a"; DMutate unit (m_rename unit "cells" 0 (VStr "c"))] "c" = GFound unit (Obj "Cell" [("id", VStr "c")]) /\
+  ask [DLookup unit "z"; DMutate unit (m_append unit "cells" (Obj "Cell" [("id", VStr "z")]))] "z" = GFound unit (Obj "Cell" [("id", VStr "z")]).
+Proof. vm_compute. repeat split; reflexivity. Qed.
